@@ -40,6 +40,12 @@ CHECKS.append({
     "note": "Trusted: CPython round()/float() correct rounding and protobuf float32->double widening; pairing lists in harness/pairs.py (every class/enum must be paired or excluded with a reason); uuid fields are generated with exactly [high, low] (protocol contract). to_dict/from_dict round trip is checked on the implementation only (no Lean theorem): partial.",
     "technique": "Lean 4 proof over translator-generated tables + proofs about an exact-arithmetic conversion model, tied by differential conversion of generated messages",
 })
+CHECKS.append({
+    "property_id": "C10",
+    "text": "Lean 4 theorems over the keepalive automaton Esp.Keepalive (mirror of _async_schedule_keep_alive / _async_send_keep_alive / _async_pong_not_received and the two keepalive lines of process_packet), for EVERY keepalive value k and EVERY event list (= every arrival schedule on an unbounded grid, both orders of events on one instant, other closes at any point): c10_ping_iff_idle (a tick writes a ping iff no message since the previous tick), c10_dead_exact (death exactly 9k = 4.5K after the first ping of the silence), c10_deadline_armed (while alive the clock cannot pass that deadline: never later), c10_silence (no message in the 4.5K before a death: never while messages keep arriving), c10_window (death in [t+5.5K, t+6.5K] after the last message at t, 5.5K after establishment if none), c10_ratio (the library constants, from the translator). Tie: sessions established through the real connect path in virtual time; the model replays the real loop's atomic events (labels of the timer callbacks, device messages) and must agree after every event on liveness, ping count, armed deadlines and death; the executable rule checker (checkLog, proved complete for the theorems' rules) judges the history observed on the implementation.",
+    "note": "Trusted: Lean kernel + standard axioms; SimLoop (timers fire exactly at their deadline; a late real loop is not modelled); the establishment instant is t=0 with the first tick at K. Write failure of the ping itself belongs to C07/C09.",
+    "technique": "Lean 4 proof (history invariant by induction over all event lists of a timed automaton) + model/implementation correspondence in virtual time",
+})
 
 _claimed = {c["property_id"] for c in CHECKS}
 NOT_APPLICABLE = [
